@@ -459,9 +459,10 @@ Equivalent(A, B) ==
     /\ A.userinfo = B.userinfo /\ A.path = B.path /\ A.query = B.query /\ A.fragment = B.fragment
 
 \* ---- the monitor.  o = one observed request:
-\*   [s, px (proxy URL or NONE), k ("sent" | exception class), dials (<<host, port>>...), req (requests
-\*    in wire order: [m, t, hosts]), snis (server_hostname of every TLS wrap), vars (variants:
-\*    [s, k, samepool, samebytes])]
+\*   [s, px (proxy URL or NONE), k ("sent" | exception class), dials (<<host, port>> of EVERY call of
+\*    create_connection), fault (name resolution was made to fail, see FaultSet), u3 (the exception is a
+\*    urllib3 HTTPError), req (requests in wire order: [m, t, hosts]), snis (server_hostname of every TLS
+\*    wrap), vars (variants: [s, k, samepool, samebytes])]
 \* a value v "names host h and port dp": read with the SAME independent authority reading
 NamesHostPort3(v, h, sc, dp, p0, hp) ==
     /\ ~hp.bad /\ NamesHost(SubSeq(v, hp.h1, hp.hend), h)
@@ -517,14 +518,31 @@ WireSentSet(o, R, W, sc, h, dp, q) ==
          \cup F(o.snis = (IF sc = HTTPS THEN <<W.sni>> ELSE <<>>), "Wire:SNI")
          \cup (IF W.mode = "forward" THEN AbsoluteSet(Ref(q.t), R, sc, h, dp) ELSE OriginSet(q.t, R))
          \cup VariantsSet(o, R)
+\* fault class "name resolution fails for the dial name" (o.fault: the harness made create_connection raise
+\* socket.gaierror for the first name dialled, and only for that name): EVERY address handed to
+\* create_connection must be the URL's host exactly as DialHost says - never a respelling of it that a
+\* resolver could expand differently -, nothing is sent, and the caller gets a urllib3 error (o.u3)
+FaultSet(o, R, W) ==
+    F(o.dials # <<>>, "Wire:Fault:NoDial")
+    \cup F(\A i \in 1..Len(o.dials) : o.dials[i][1] = W.dialhost, "Wire:DialHost")
+    \cup F(\A i \in 1..Len(o.dials) : (W.mode = "direct" /\ R.port = 0) \/ o.dials[i][2] = W.dialport, "Wire:DialPort")
+    \cup F(o.k # "sent" /\ o.u3, "Wire:Fault:Outcome")
+    \cup F(o.req = <<>>, "Wire:Fault:RequestSent")
 WireClauses2(o, R, P) ==
     IF o.k = "did-not-return" THEN {"Wire:DidNotReturn"}     \* the request never came back (CPU-time watchdog)
+    ELSE IF o.fault /\ WireDefined(R) THEN FaultSet(o, R, WireOf(R, IF o.px = NONE THEN "none" ELSE "proxy", P))
     ELSE IF o.k # "sent" THEN F(o.dials = <<>>, "Wire:RejectedButDialled")
     ELSE IF ~WireDefined(R) THEN {"-"}                 \* outside the property's quantifier: not judged
     ELSE IF o.req = <<>> THEN {"Wire:OneRequest"}
     ELSE WireSentSet(o, R, WireOf(R, IF o.px = NONE THEN "none" ELSE "proxy", P), Lower(R.scheme), WireHost(R.host),
                      EffPort(R, Lower(R.scheme)), o.req[Len(o.req)])
 WireClauses(o) == WireClauses2(o, Ref(o.s), IF o.px = NONE THEN Ref(<<>>) ELSE Ref(o.px))
+
+\* history class: consecutive requests through ONE manager.  h = [steps (observations as above, vars = <<>>),
+\* hdr0 / hdr1 (the manager's default headers before / after, as <<name, value>> pairs)]: every request is
+\* judged on its OWN URL, and serving requests must not change the manager's defaults
+HistClauses(h) == UNION {WireClauses(h.steps[i]) : i \in 1..Len(h.steps)}
+                  \cup F(h.hdr1 = h.hdr0, "Wire:DefaultHeadersMutated")
 
 \* facts about the reading (for reports and for matching recorded findings on the input class)
 HostKind(h) == IF Bracketed(h) THEN (IF HasAny(h, {PCT}) THEN "ipv6zone" ELSE "ipv6")
@@ -544,7 +562,7 @@ WireObs(str, pxs, W) ==
     [s |-> str, px |-> pxs, k |-> "sent", dials |-> << <<W.dialhost, W.dialport>> >>,
      req |-> (IF W.mode = "tunnel" THEN << [m |-> "CONNECT", t |-> W.connect, hosts |-> <<W.connect>>] >> ELSE <<>>)
              \o << [m |-> "GET", t |-> W.target, hosts |-> <<W.hosthdr>>] >>,
-     snis |-> IF W.sni = NONE THEN <<>> ELSE <<W.sni>>, vars |-> <<>>]
+     snis |-> IF W.sni = NONE THEN <<>> ELSE <<W.sni>>, vars |-> <<>>, fault |-> FALSE, u3 |-> TRUE]
 
 -----------------------------------------------------------------------------
 (* Enumeration of the input domain and the stage-1 invariants                   *)
